@@ -13,6 +13,7 @@ from ..core import hx
 from ..ref import wire, keys as RK, sym, pk as RPK
 from .. import pool, encwork
 
+W0_COUNTER = 'C13_urandom_outputs'   # thorough tier: the repository's own tests run under this property's always-on monitor
 LEVEL = 'exploration'
 RULE = ('case = one history (sequence of encrypt/protect operations in one process); one evaluation per operation; a history is non-trivial when it '
         'contains at least one exact repeat (same message, same recipient / same key, same passphrase) and at least two recipient kinds; '
